@@ -1,7 +1,10 @@
 ------------------------------ MODULE MC_Slice ------------------------------
-EXTENDS Slice
+EXTENDS Slice, Json
 CONSTANTS CompMax
 BIG == 1073741823            \* 2^30 - 1, stands for 2^53 - 1 (clamping lemma T4c)
 MCComps == {<<>>} \cup {<<x>> : x \in (-CompMax)..CompMax} \cup {<<-BIG>>, <<BIG>>}
 ASSUME T4c == Clamping(BIG)
+\* GEN: every Done state is one implementation test (exported as one JSON line)
+Export == pc = "Done" =>
+    PrintT("GEN " \o ToJson([len |-> len, s |-> s, e |-> e, st |-> st, out |-> out]))
 =============================================================================
